@@ -16,7 +16,7 @@ import (
 var Shapes = []string{
 	"text", "textcrlf", "html", "cyrillic", "cjk", "utf8big", "dna", "numeric", "base64",
 	"elfx86", "pe", "elfarm64", "elfbogus", "pebogus", "machobogus", "wav", "bmp", "ppm", "runs", "zeros",
-	"skewed", "raredom", "ramp255", "ramp256", "smallalpha", "periodic", "random", "magicmix", "repeatblocks", "sorted", "utf8dirty", "longruns", "farmatch", "crlfcut", "constchunks", "randtext", "bigvocab", "fsdstress", "ffmix", "wordlist", "wordlist3", "staircase", "staircase2", "clusterq", "fibword", "thuemorse", "bigperiod",
+	"skewed", "raredom", "ramp255", "ramp256", "smallalpha", "periodic", "random", "magicmix", "repeatblocks", "sorted", "utf8dirty", "longruns", "farmatch", "crlfcut", "constchunks", "randtext", "bigvocab", "fsdstress", "ffmix", "wordlist", "wordlist3", "staircase", "staircase2", "clusterq", "fibword", "thuemorse", "bigperiod", "utfcont",
 }
 
 var words = strings.Fields(`the of and to a in is that it was for on are as with his they at be this from have or by one had not but what all were
@@ -320,6 +320,18 @@ func Make(shape string, n int, seed int64) []byte {
 			}
 		}
 		b = b[:n]
+	case "utfcont":
+		// UTF-8 text whose first bytes are 1..5 stray continuation bytes and whose last bytes are a truncated sequence: what a block
+		// boundary in the middle of a character (or garbage before the text) looks like
+		k := 1 + r.Intn(5)
+		for i := 0; i < k; i++ {
+			b = append(b, byte(0x80+r.Intn(64)))
+		}
+		t := Make([]string{"cjk", "cyrillic"}[r.Intn(2)], max(n-k, 0), seed+3)
+		b = append(b, t...)
+		if len(b) > n {
+			b = b[:n]
+		}
 	case "fibword":
 		// Fibonacci word over two symbols: maximal number of long repeated substrings (worst case for suffix sorting merges)
 		x, y := []byte{byte('a' + r.Intn(3))}, []byte{byte('x'), byte('a' + r.Intn(3))}
